@@ -677,9 +677,31 @@ func (fe *FnEnc) loopSpec(li *loopInfo) *LoopSpec {
 		ct = fe.g.contractFor(fe.fn)
 	}
 	if ct == nil {
-		return nil
+		// an inlined helper / closure without contract: the enclosing contract's "loop *" clauses apply
+		if fe.top != fe && fe.top.ct != nil && fe.top.ct.Loops[0] != nil {
+			ct = &Contract{Loops: map[int]*LoopSpec{0: fe.top.ct.Loops[0]}}
+		} else {
+			return nil
+		}
 	}
-	return ct.Loops[li.ordinal]
+	sp, all := ct.Loops[li.ordinal], ct.Loops[0]
+	if all == nil {
+		return sp
+	}
+	// "loop *" clauses apply to every loop, in front of the loop's own
+	m := &LoopSpec{K: li.ordinal}
+	for _, c := range all.Invariants {
+		c2 := c
+		c2.Label = "all_" + c.Label
+		m.Invariants = append(m.Invariants, c2)
+	}
+	m.Hints = append(m.Hints, all.Hints...)
+	if sp != nil {
+		m.Invariants = append(m.Invariants, sp.Invariants...)
+		m.Hints = append(m.Hints, sp.Hints...)
+		m.Decreases = sp.Decreases
+	}
+	return m
 }
 
 // havocKeys replaces the given memory keys with fresh values.
@@ -706,6 +728,11 @@ func (fe *FnEnc) havocKeys(keys map[string]bool) {
 			}
 			h := fe.s.fresh("hh", fe.s.heapSort[k])
 			fe.mem.heaps[k] = h
+			for pk := range fe.mem.ptrs {
+				if strings.HasPrefix(pk, "heap:"+k+"@") {
+					delete(fe.mem.ptrs, pk)
+				}
+			}
 
 		}
 	}
@@ -1156,7 +1183,7 @@ func (fe *FnEnc) mergeMems(gs []string, ms []*Mem) *Mem {
 // (phi #rangeindex from -1, t = phi + 1, if t < L) and returns the implicit
 // invariant -1 <= rangeindex < L ("" if the header has no such phi).
 func (fe *FnEnc) rangeIndexInv(h *ssa.BasicBlock, over map[*ssa.Phi]Val) string {
-	if fe.s.mode != "int" || (fe.top.ct != nil && fe.top.ct.Panics == "off") {
+	if fe.s.mode != "int" {
 		return ""
 	}
 	for _, ins := range h.Instrs {
